@@ -312,3 +312,153 @@ func c08LagOracle(c *Ctx, base string) {
 		}
 	}
 }
+
+// ---------------------------------------------------------------------------------------------
+// idle-rewind family: the queue drains completely between promotions (the normal case on a real node: a
+// promotion is written in milliseconds, blocks come every few seconds), so every promotion starts with
+// emptyFile finding the index empty. Block 1 changes A and B, block 2 changes only B, block 3 only C; after
+// each promotion (queue idle) the data directory is copied — a process that dies while idle — and reopened.
+// Direct invariant at image time: tmp.data was emptied when the promotion started, so every record in it must
+// carry the value the running node serves for its key; a record with an older value is a stale record left
+// behind a rewound write position (root cause "stale-records-behind-rewound-offset").
+// ---------------------------------------------------------------------------------------------
+
+func c08MakeRewindWorkload(seed int64, idx int, H int) *c08Workload {
+	w := &c08Workload{H: H}
+	for i := 0; i < 3; i++ {
+		w.Addrs = append(w.Addrs, c08Addr(i+5*idx))
+	}
+	state := map[string]string{}
+	var parent common.Hash
+	for h := 0; h <= H; h++ {
+		hdr := &types.Header{Height: uint32(h), ParentHash: parent, Time: uint32(1600000000 + h)}
+		binary.BigEndian.PutUint64(hdr.VersionRoot[0:], uint64(seed))
+		binary.BigEndian.PutUint32(hdr.VersionRoot[8:], uint32(idx))
+		binary.BigEndian.PutUint32(hdr.VersionRoot[12:], uint32(h+1))
+		blk := &types.Block{}
+		blk.SetHeader(hdr)
+		parent = blk.Hash()
+		w.Blocks = append(w.Blocks, blk)
+		var ch []*types.AccountData
+		for i, a := range w.Addrs {
+			// genesis: A,B,C; block 1: A,B; block 2: B; block 3: C; block 4: A,B; block 5: A ...
+			var touch bool
+			switch h % 4 {
+			case 0:
+				touch = h == 0 || i != 2
+			case 1:
+				touch = i != 2
+			case 2:
+				touch = i == 1
+			default:
+				touch = i == 2
+			}
+			if !touch {
+				continue
+			}
+			acc := &types.AccountData{
+				Address:       a,
+				Balance:       big.NewInt(int64(1000*(h+1) + i)),
+				NewestRecords: map[types.ChangeLogType]types.VersionRecord{1: {Version: uint32(h + 1), Height: uint32(h)}},
+				Candidate:     types.Candidate{Votes: new(big.Int), Profile: make(types.Profile)},
+			}
+			state[a.Hex()] = c08AccDigest(acc)
+			ch = append(ch, acc)
+		}
+		w.Changes = append(w.Changes, ch)
+		cp := map[string]string{}
+		for k, v := range state {
+			cp[k] = v
+		}
+		w.Exp = append(w.Exp, cp)
+		w.Cand = append(w.Cand, map[string]string{})
+	}
+	return w
+}
+
+func c08RewindOracle(c *Ctx, base string) {
+	wl := 200
+	H := 3
+	if c.Tier == "thorough" {
+		H = 6
+	}
+	w := c08MakeRewindWorkload(c.Seed, wl, H)
+	live := filepath.Join(base, "rewind-live")
+	os.MkdirAll(live, 0755)
+	defer os.RemoveAll(live)
+	db := store.NewChainDataBase(live)
+	var images []*c08Image
+	for h := 0; h <= H; h++ {
+		if sb, ss := w.apply(db, h); sb != "ok" || ss != "ok" {
+			c08Fail(c, "c08/workload", fmt.Sprintf("continuous node rejects block %d of the rewind workload: %s/%s", h, sb, ss), nil)
+			break
+		}
+		if !c08QueueIdle(db.Beansdb.Queue, 20*time.Second) {
+			panic("rewind: queue does not drain")
+		}
+		if h == 0 {
+			continue
+		}
+		img := &c08Image{candsOld: -1, name: fmt.Sprintf("idle queue: blocks 0..%d promoted one by one, the queue drained after each; the process dies while idle", h), class: "idle-after-promotion", cause: "idle-restart", dir: filepath.Join(base, fmt.Sprintf("rewimg%d", h)), completed: h, inflight: -1}
+		c08CopyDir(live, img.dir)
+		img.replay = map[string]interface{}{"level": "ChainDatabase", "family": "idle-rewind", "workload": wl, "seed": c.Seed, "H": H, "promoted": h, "recipe": "genesis A,B,C; block 1 changes A,B; block 2 changes B; block 3 changes C; drain after every promotion; copy the data dir; reopen; every account must read as of the stable block"}
+		// direct invariant: every record in tmp.data carries the value the running node serves for its key
+		recs, _, _, _ := store.VerifScanFile(filepath.Join(live, "tmp.data"))
+		stale := 0
+		var staleKey string
+		for _, r := range recs {
+			cur, err := db.Beansdb.Get(r.Flg, r.Key)
+			if err == nil && cur != nil && string(cur) != string(r.Val) {
+				stale++
+				staleKey = fmt.Sprintf("%d:%x", r.Flg, r.Key)
+			}
+		}
+		c.Count(fmt.Sprintf("rewind:wal-records=%d", len(recs)))
+		if stale > 0 {
+			img.cause = "stale-records-behind-rewound-offset"
+			c.Count("rewind:stale-record-in-wal")
+			c08Fail(c, "c08/stale-record-in-wal/stale-records-behind-rewound-offset", fmt.Sprintf("[%s] tmp.data holds %d records, %d of them carry an OLDER value than the node serves (e.g. %s): the write position was rewound to 0 on an idle queue but the old records behind the new ones were not removed; a restart redelivers them after the newer versions", img.name, len(recs), stale, staleKey), img.replay)
+		}
+		images = append(images, img)
+	}
+	db.Close()
+	for _, img := range images {
+		img := img
+		c08Guard(c, "image-check", func() {
+			o, die := c08RunChild(c, img, wl, H, H)
+			os.RemoveAll(img.dir)
+			if o == nil {
+				c.Count("chain:" + img.class + ":process-died")
+				c08Fail(c, "c08/reopen-crash/"+img.cause, fmt.Sprintf("[%s] the process reopening the data directory dies: %s", img.name, die), img.replay)
+				return
+			}
+			if o.OpenPanic != "" {
+				c.Count("chain:" + img.class + ":reopen-panic")
+				c08Fail(c, "c08/reopen-panic/"+img.cause, fmt.Sprintf("[%s] NewChainDataBase panics: %s", img.name, o.OpenPanic), img.replay)
+				return
+			}
+			fails := c08CheckDump(c, w, img, o.First, "after reopen", img.completed, img.completed)
+			if len(fails) == 0 {
+				for _, s := range o.Cont {
+					if !strings.HasSuffix(s, ":ok/ok") {
+						fails = append(fails, "c08/restart-rejects-block")
+						c08Fail(c, "c08/restart-rejects-block/"+img.cause, fmt.Sprintf("[%s] restarted node re-applies the next blocks: %v", img.name, o.Cont), img.replay)
+						break
+					}
+				}
+				if o.Second != nil && len(fails) == 0 {
+					fails = append(fails, c08CheckDump(c, w, img, o.Second, "after continuing to block H", H, H)...)
+				}
+				if o.Reopen2 != nil && len(fails) == 0 {
+					fails = append(fails, c08CheckDump(c, w, img, o.Reopen2, "second clean reopen", H, H)...)
+				}
+			}
+			if len(fails) == 0 {
+				c.Count("chain:" + img.class + ":intact")
+			} else {
+				sort.Strings(fails)
+				c.Count("chain:" + img.class + ":" + strings.TrimPrefix(fails[0], "c08/"))
+			}
+		})
+	}
+}
